@@ -1,14 +1,17 @@
 """C19 — output files always match the current data and nothing unchanged is redone.
 
 Real code: lena.output.{ToCSV, MakeFilename, Write, RenderLaTeX, LaTeXToPDF, PDFToPNG},
-lena.flow.{group_plots, MapGroup} (and lena.flow.group_plots._update_with_group).
+lena.flow.{group_plots, MapGroup}.  Only the public interface of lena is used (constructors, run, __call__, the
+public attributes Write.output_directory and LaTeXToPDF.processes, Sequence + SetContext for static contexts): no
+attribute or function of lena whose name starts with an underscore is read, called or replaced.
 Model: lean/LenaModel/Model/C19.lean, theorems lean/LenaModel/Props/C19.lean.
 
 Cases
 -----
 * stage cases exercise one element (or one function) on an arbitrary incoming context and file-system
-  state: "mf" (MakeFilename.__call__), "wmf" (Write._make_filename), "winit", "write", "latex", "png",
-  "gp" (group_plots), "uwg" (_update_with_group);
+  state: "mf" (MakeFilename.__call__), "wmf" (the file name Write.run gives an object that writes itself), "winit" (the mode
+  of a Write, observed on an existing file), "write", "latex", "png",
+  "gp" (group_plots), "uwg" (MapGroup.run: the group's context updated with its members' new contexts);
   after the adversary round (notes/adversary_C19.md) also ONE element object on a flow of several values: "mfseq"
   (MakeFilename with a static context), "renderflow" (RenderLaTeX, every value selects its template; several runs with
   edits of the template files), "tocsv" (ToCSV with the options that travel in the value's context), "latexrun" with
@@ -279,12 +282,12 @@ def _lena():
         import lena.flow
         import lena.output
         import lena.structures
+        import lena.meta
         l2p = sys.modules["lena.output.latex_to_pdf"]
         p2p = sys.modules["lena.output.pdf_to_png"]
         l2p.subprocess = _Subprocess
         p2p.subprocess = _Subprocess
-        _LENA.update(core=lena.core, flow=lena.flow, output=lena.output, structures=lena.structures,
-                     gp=sys.modules["lena.flow.group_plots"])
+        _LENA.update(core=lena.core, flow=lena.flow, output=lena.output, structures=lena.structures, meta=lena.meta)
     return _LENA
 
 
@@ -570,15 +573,16 @@ def _pipeline(L, env, cfg, layout, verbose=False, default_cmd=False):
             _write(L, out, cfg["w2"], v),
             o.LaTeXToPDF(overwrite=cfg["lo"], verbose=2 if v else 0, create_command=cc if default_cmd is False else None),
             o.PDFToPNG(overwrite=cfg["po"], verbose=v)]
+    # the second result: the element objects built here (the harness keeps its own references; it does not look
+    # into the Sequence)
     if layout in ("group", "scalars"):
         return L["core"].Sequence(L["flow"].MapGroup(o.ToCSV(), _mf(L, cfg["mf"]), _write(L, out, cfg["w1"], v)),
-                                  _mf(L, cfg["gmf"]), *tail)
+                                  _mf(L, cfg["gmf"]), *tail), tail
     head = []
     if cfg.get("static") is not None:
         # the Sequence carries a static context: MakeFilename formats with it where a value has no name of its own
-        import lena.meta
-        head = [lena.meta.SetContext("name", cfg["static"])]
-    return L["core"].Sequence(*(head + [o.ToCSV(), _mf(L, cfg["mf"]), _write(L, out, cfg["w1"], v)] + tail))
+        head = [L["meta"].SetContext("name", cfg["static"])]
+    return L["core"].Sequence(*(head + [o.ToCSV(), _mf(L, cfg["mf"]), _write(L, out, cfg["w1"], v)] + tail)), tail
 
 
 def _names(rs):
@@ -602,7 +606,7 @@ def _flow(L, layout, plots):
 def _run_hist(case):
     L = _lena()
     runs = []
-    seq = None
+    seq, els = None, []
     env = None
     try:
         env = _Env(proc=(case.get("stub") == "proc"), relative=bool(case.get("relative")))
@@ -625,8 +629,8 @@ def _run_hist(case):
             try:
                 if seq is None or not case.get("reuse"):
                     # "reuse": ONE pipeline object (Sequence and all its elements) serves every run of the history
-                    seq = _pipeline(L, env, rs, rs["layout"], verbose=bool(case.get("verbose")),
-                                    default_cmd=bool(case.get("pdflatex")))
+                    seq, els = _pipeline(L, env, rs, rs["layout"], verbose=bool(case.get("verbose")),
+                                         default_cmd=bool(case.get("pdflatex")))
             except Exception as e:
                 runs.append({"e": exc_name(e), "phase": "init"})
                 break
@@ -659,7 +663,8 @@ def _run_hist(case):
             vals = sorted((_val(env, v) for v in res), key=jdump)
             run = {"files": _snapshot(env, stamps), "log": env.take_log(), "vals": vals}
             if st.get("interrupt"):
-                pools = [len(el.processes) for el in _elements(seq) if hasattr(el, "processes")]
+                # the pool of LaTeXToPDF: its public attribute `processes`
+                pools = [len(el.processes) for el in els if hasattr(el, "processes")]
                 run["interrupted"] = interrupted
                 run["pool"] = sum(pools)
             runs.append(run)
@@ -669,12 +674,67 @@ def _run_hist(case):
     return {"runs": runs}
 
 
-def _elements(seq):
-    """the element objects of a Sequence (adapters unwrapped where they wrap)"""
-    els = []
-    for el in getattr(seq, "_seq", []):
-        els.append(getattr(el, "_el", el))
-    return els
+def _with_static(L, el, items):
+    """`el` as an element of a Sequence that carries the static context `items` ([(key, value)]): the public way to
+    give an element a static context — Sequence(SetContext(key, value), ..., el).  The element object is `el` itself
+    (the caller goes on using it)."""
+    return L["core"].Sequence(*([L["meta"].SetContext(k, v) for k, v in items] + [el]))
+
+
+class _Recorder(object):
+    """a data object with a method write(filepath) that only records where it is told to write itself (Write hands
+    it the complete path and touches the file system in no other way)"""
+
+    def __init__(self):
+        self.paths = []
+
+    def write(self, path):
+        self.paths.append(path)
+
+
+def _write_names(w, out):
+    """Where Write `w` puts a value with context.output = out, observed through Write.run on an object that writes
+    itself: [None, filename, fileext, filepath] (the normalised dirname is not observable: None)."""
+    rec = _Recorder()
+    ctx = {"output": {k: v for k, v in out.items() if v is not None}}
+    with warnings.catch_warnings():
+        warnings.simplefilter("ignore")
+        res = list(w.run(iter([(rec, ctx)])))
+    if len(res) != 1 or not isinstance(res[0], tuple) or len(res[0]) != 2 or not isinstance(res[0][1], dict):
+        return {"r": [None, None, None, None], "odd": "Write.run yielded %d values" % len(res)}
+    path, rctx = res[0]
+    o = rctx.get("output", {})
+    r = {"r": [None, o.get("filename"), o.get("fileext"), o.get("filepath")]}
+    if rec.paths != [path] or o.get("filepath") != path:
+        r["odd"] = "yielded %r, context.output.filepath %r, the object was told to write %r" % (path, o.get("filepath"), rec.paths)
+    return r
+
+
+def _write_mode(L, eu, ow):
+    """The mode of Write(existing_unchanged=eu, overwrite=ow), observed on a file that exists: "ow" if data equal to
+    the file's content is written and reported as changed, "eu" if different data leaves the file as it is, "normal"
+    if equal data is left alone and different data is written."""
+    w = L["output"].Write("x", existing_unchanged=eu, overwrite=ow, verbose=False)    # arguments are checked here
+    base = tempfile.mkdtemp(prefix="c19m")
+    try:
+        w = L["output"].Write(base, existing_unchanged=eu, overwrite=ow, verbose=False)
+        path = os.path.join(base, "f.txt")
+
+        def probe(text):
+            with open(path, "w") as f:
+                f.write("A")
+            os.utime(path, ns=(10 ** 18, 10 ** 18))
+            res = list(w.run(iter([(text, {"output": {"filename": "f"}})])))
+            with open(path) as f:
+                now = f.read()
+            return [res[0][1]["output"].get("changed"), now, os.stat(path).st_mtime_ns != 10 ** 18]
+        same, diff = probe("A"), probe("B")
+    finally:
+        shutil.rmtree(base, ignore_errors=True)
+    table = {jdump([[False, "A", False], [True, "B", True]]): "normal",
+             jdump([[False, "A", False], [False, "A", False]]): "eu",
+             jdump([[True, "A", True], [True, "B", True]]): "ow"}
+    return table.get(jdump([same, diff]), "other: equal data %s, different data %s" % (same, diff))
 
 
 def _world_setup(env, world):
@@ -718,7 +778,7 @@ def _run_stage(case):
         ctx = {} if case["name"] is None else {"name": case["name"]}
         if case.get("static") is not None:
             # static context (set by a Sequence): formatting uses it, the run-time context takes precedence
-            el._set_context({"name": case["static"]})
+            _with_static(L, el, [("name", case["static"])])
         o = {k: v for k, v in (case["out"] or {}).items() if v is not None}
         if o or case.get("empty_output"):
             ctx["output"] = o
@@ -738,9 +798,9 @@ def _run_stage(case):
         except Exception as e:
             return {"e": exc_name(e), "phase": "init"}
         if case.get("static") is not None:
-            el._set_context({"name": case["static"], "detector": "far"})
+            _with_static(L, el, [("name", case["static"]), ("detector", "far")])
         elif case.get("static_set"):
-            el._set_context({"detector": "far"})
+            _with_static(L, el, [("detector", "far")])
         outs = []
         for x in case["vals"]:
             ctx = {} if x["name"] is None else {"name": x["name"]}
@@ -815,27 +875,22 @@ def _run_stage(case):
     if op == "wmf":
         try:
             w = L["output"].Write(case["outdir"], verbose=False)
-            with warnings.catch_warnings():
-                warnings.simplefilter("ignore")
-                r = w._make_filename({k: v for k, v in case["out"].items() if v is not None})
-            return {"r": list(r)}
+            return _write_names(w, case["out"])
         except Exception as e:
             return {"e": exc_name(e)}
     if op == "winit":
         try:
-            w = L["output"].Write("x", existing_unchanged=case["eu"], overwrite=case["ow"])
+            return {"mode": _write_mode(L, case["eu"], case["ow"])}
         except Exception as e:
             return {"e": exc_name(e)}
-        return {"mode": "eu" if w._existing_unchanged else ("ow" if w._overwrite else "normal")}
     if op == "wdir":
         try:
             w = L["output"].Write(_tpl_str(case["dir"]), verbose=False)
             for st in case["statics"]:
-                w._set_context({} if st is None else {"name": st})
-            with warnings.catch_warnings():
-                warnings.simplefilter("ignore")
-                r = w._make_filename({k: v for k, v in case["out"].items() if v is not None})
-            return {"dir": w.output_directory, "r": list(r)}
+                # one Sequence after the other takes the Write object as its element; None: a Sequence without a
+                # static context
+                _with_static(L, w, [] if st is None else [("name", st)])
+            return dict(_write_names(w, case["out"]), dir=w.output_directory)
         except Exception as e:
             return {"e": exc_name(e)}
     if op == "seltpl":
@@ -938,11 +993,22 @@ def _run_stage(case):
         ctx = ctx_of(case["ctx"])
         new = [ctx_of(o) for o in case["new"]]
         old = ctx_of(case["old"])
+
+        class _Replace(object):
+            """a member sequence that gives member i the context new[i]"""
+            def run(self, flow):
+                for val in flow:
+                    yield ("r", copy.deepcopy(new[val[0]]))
+        # how a group's context is updated with the contexts of its transformed members, observed through
+        # MapGroup.run: every member comes with the context `old` (their intersection is `old`) and leaves with new[i]
+        ctx["group"] = [copy.deepcopy(old) for _ in new]
         try:
-            L["gp"]._update_with_group(ctx, new, old)
+            res = list(L["flow"].MapGroup(_Replace()).run(iter([(list(range(len(new))), ctx)])))
         except Exception as e:
             return {"e": exc_name(e)}
-        return {"out": {k: ctx.get("output", {}).get(k) for k in OUT_KEYS}}
+        if len(res) != 1:
+            return {"e": "Other:%d results for one result per member" % len(res)}
+        return {"out": {k: res[0][1].get("output", {}).get(k) for k in OUT_KEYS}}
     if op == "latexrun":
         env = _Env()
         try:
@@ -1146,6 +1212,14 @@ def compare(case, res, replies):
             return f"impl raised {res}"
         a, b = _norm_out(res["out"]), _norm_out(m["out"])
         return None if a == b else f"impl {a} vs model {b}"
+    if op in ("wmf", "wdir"):
+        if "e" in res or "e" in m:
+            return None if res.get("e") == m.get("e") else f"impl {res} vs model {m}"
+        # file name, extension and path as Write.run reports them (the model's first component, the normalised
+        # dirname, is an intermediate value that Write does not show)
+        a = {"r": res["r"][1:], "dir": res.get("dir")}
+        b = {"r": m["r"][1:], "dir": m.get("dir")}
+        return None if a == b else f"impl {a} vs model {b}"
     if op == "mfseq":
         if "e" in res or "e" in m:
             return None if (res.get("e"), res.get("phase")) == (m.get("e"), m.get("phase")) else f"impl {res} vs model {m}"
@@ -1241,6 +1315,9 @@ def _oracle_stage(case, res):
         if got != ref:
             return f"MakeFilename({a}) on name={case['name']!r} output={case['out']}: got {got}, naming rules give {ref}"
         return None
+    if op in ("wmf", "wdir") and res.get("odd"):
+        # the yielded data, context.output.filepath and the path handed to the object's write method are one path
+        return f"Write.run on an object that writes itself, output {case['out']}: {res['odd']}"
     if op == "wmf":
         o = case["out"]
         fn = o.get("filename")
@@ -1261,14 +1338,14 @@ def _oracle_stage(case, res):
             refs = {_join(case["outdir"], dn[1:] if dn.startswith("/") else dn, fp[1:] if fp.startswith("/") else fp),
                     _join(case["outdir"], dn.lstrip("/"), fp.lstrip("/"))}
             if res["r"][3] not in refs:
-                return (f"Write._make_filename({o}) in output directory {case['outdir']!r} = {res['r']}: the file is not "
+                return (f"Write (file name for output {o}) in output directory {case['outdir']!r} = {res['r'][1:]}: the file is not "
                         f"below the output directory at {sorted(refs)}")
             return None
         if "e" in res:
-            return f"Write._make_filename({o}) raised {res}"
+            return f"Write (file name for output {o}) raised {res}"
         ref = _join(case["outdir"], dn, fn + ("." + fe if fe else ""))
         if res["r"][3] != ref or res["r"][1] != fn or res["r"][2] != fe:
-            return f"Write._make_filename({o}) = {res['r']}, expected path {ref}"
+            return f"Write (file name for output {o}) = {res['r'][1:]}, expected path {ref}"
         return None
     if op == "winit":
         if case["eu"] and case["ow"]:
@@ -1396,7 +1473,7 @@ def _oracle_stage(case, res):
         # Write(output_directory with {{name}}): the path starts with the directory formatted with the static context
         # (the last one that could be formatted; unformatted as long as none could)
         if "e" in res:
-            return f"Write._make_filename raised {res}"
+            return f"Write (file name) raised {res}"
         t = case["dir"]
         want = _tpl_str(t)
         if any(p is None for p in t):
@@ -1408,7 +1485,7 @@ def _oracle_stage(case, res):
         fe = o.get("fileext") if o.get("fileext") is not None else (o.get("filetype") if o.get("filetype") is not None else "txt")
         ref = _join(want, o.get("dirname") or "", fn + ("." + fe if fe else ""))
         if res["r"][3] != ref:
-            return f"Write({_tpl_str(t)!r}) after _set_context {case['statics']}: path {res['r'][3]}, expected {ref}"
+            return f"Write({_tpl_str(t)!r}) after the static contexts {case['statics']}: path {res['r'][3]}, expected {ref}"
         return None
     if op == "seltpl":
         # "select_template ... is the name of the template to be used (unless context.output.template overwrites that)"
@@ -1439,10 +1516,10 @@ def _oracle_stage(case, res):
         return None if res["changed"] is want else f"group_plots: members changed {case['ms']} -> {res['changed']}, expected {want}"
     if op == "uwg":
         if "e" in res:
-            return f"_update_with_group raised {res}"
+            return f"MapGroup (update of the group's context) raised {res}"
         ms = [(o or {}).get("changed") for o in case["new"]]
         if any(m is True for m in ms) and res["out"]["changed"] is not True:
-            return (f"_update_with_group: a member has output.changed=True ({ms}) but the group's output.changed is "
+            return (f"MapGroup (update of the group's context): a member has output.changed=True ({ms}) but the group's output.changed is "
                     f"{res['out']['changed']!r}: changed must stay true downstream")
         return None
     if op == "write" and (case["out"] or {}).get("filename") == "" and "many" not in case["data"] and not case.get("nowrite"):
@@ -1931,7 +2008,7 @@ def _stage_cases():
                             for name in (None, "n"):
                                 for o in (outs[:1] if invalid else outs):
                                     cases.append({"op": "mf", "args": args, "name": name, "out": o})
-    # Write._make_filename
+    # the file name Write gives a value (observed through Write.run)
     for outdir in ("out", "", "out/", "a/b"):
         for fn in (None, "", "f", "d/f", "/f", "/d/f", "//f"):
             for fe in (None, "", "e"):
@@ -2090,7 +2167,7 @@ def _stage_cases():
         for b in range(0, 3):
             if (a, b) != (0, 0):
                 cases.append({"op": "mglen", "ndata": a, "ngroup": b})
-    # group_plots / _update_with_group
+    # group_plots / MapGroup's update of the group context
     for n in range(1, 4):
         for ms in itertools.product(tri, repeat=n):
             cases.append({"op": "gp", "ms": list(ms)})
@@ -2473,7 +2550,7 @@ TRUSTED = [
     "Lean 4.33.0 kernel; axioms limited to propext, Classical.choice, Quot.sound (audited by #print axioms on every run; "
     "the concrete witnesses are evaluated by the kernel with `decide +kernel`, no native_decide)",
     "hand transcription of Write.run/_make_filename, MakeFilename.__init__/__call__, RenderLaTeX.run (default selector), "
-    "LaTeXToPDF.run, PDFToPNG.run, group_plots, MapGroup.run/_update_with_group (on context.output) into "
+    "LaTeXToPDF.run, PDFToPNG.run, group_plots, MapGroup.run (on context.output) into "
     "LenaModel/Model/C19.lean, validated by this correspondence check (every branch of every modelled function is hit by "
     "the exhaustive stage cases; whole histories are compared file by file)",
     "the abstraction of the file system (paths -> content + logical modification time, implicit directories), of "
@@ -2545,8 +2622,19 @@ ASSUMPTIONS = [
     "relative to self.output_directory`; the oracle accepts a refusal (exception) or the path below the output "
     "directory with the leading separator(s) dropped, and nothing else (write_path_below_outdir: for all names the "
     "path is the output directory followed by relative parts).  Histories with absolute names are not run on the "
-    "file system (a broken normalisation would write into the root directory of the machine); Write._make_filename "
-    "is exercised on them as a function",
+    "file system (a broken normalisation would write into the root directory of the machine); the naming is observed "
+    "through Write.run on an object that writes itself and only records the path it is given (Write hands it the "
+    "complete path and does not touch the file system for such data)",
+    "PUBLIC INTERFACE ONLY: the harness reads, calls and replaces no underscore-named attribute, method or function of "
+    "lena (a consistent rename of private names must not change any result).  Write's naming rule (wMakeFilename) is "
+    "observed as context.output.{filename, fileext, filepath} after Write.run (the normalised dirname, an "
+    "intermediate value of the model, is not compared); the mode of Write(existing_unchanged, overwrite) (writeInit) "
+    "by what it does to an existing file with equal and with different data; static contexts are given by "
+    "Sequence(SetContext(...), element) (an empty static context is therefore never delivered: Sequence skips it); "
+    "the update of a group's context (updateWithGroup) through MapGroup.run with a member sequence that replaces the "
+    "member contexts; the pool of LaTeXToPDF is its public attribute `processes` on the object the harness built.  The "
+    "in-process converter stand-in replaces the module attribute `subprocess` of lena.output.latex_to_pdf / "
+    "pdf_to_png (a public name; real sh-script converters through PATH are run on a sample as well)",
     "OUTPUT DIRECTORY: absolute or relative (the process then works in the temporary directory); the model speaks of "
     "paths relative to the temporary directory in both cases",
     "ADVERSARY ROUND (notes/adversary_C19.md): all six candidates were judged inside the statement and its "
@@ -2563,18 +2651,18 @@ ASSUMPTIONS = [
     "a run); without it the statement is false for the code as it is (history_fresh_full_fails = the known finding)",
 ]
 RULE = ("stage cases (exhaustive small scopes): MakeFilename arguments x name x incoming output (all valid combinations), "
-        "Write._make_filename keys x output directories, Write.run mode x existing file {none, same, different} x incoming "
+        "Write file-name keys x output directories (Write.run on an object that writes itself), Write.run mode x existing file {none, same, different} x incoming "
         "changed {unset, True, False} x data kind, LaTeXToPDF overwrite x changed x tex/pdf presence and mtime order, "
         "PDFToPNG likewise, values without an output context, Write with a formatted output directory and sequences of "
         "static contexts, RenderLaTeX with/without context.output.template, MapGroup with 1-3 results per member, "
         "LaTeXToPDF.run on flows of 2-3 values with per-launch schedules (command succeeds / fails with "
         "return code 1, seen terminated after 0, 1 or many polls) x verbose 0,1,2 x existing pdfs, one RenderLaTeX object over all sequences of 2-3 states (content, mtime) of the template file, "
-        "group_plots and _update_with_group over {unset, True, False}^(1..3); ONE MakeFilename object (6 argument sets x no / "
+        "group_plots and MapGroup's update of the group context over {unset, True, False}^(1..3); ONE MakeFilename object (6 argument sets x no / "
         "empty / named static context) naming flows of 2-3 values (named, unnamed, with existing name or prefix); ONE "
         "RenderLaTeX object on flows of 1-3 values that select their template through context.output.template "
         "(absent, other file, same file, empty) or are not selected, and two runs with the template files edited in "
         "between; ONE ToCSV object (duplicate_last_bin x header) on flows of 1-2 histograms x context "
-        "duplicate_last_bin {absent, True, False} x to_csv; Write._make_filename also with absolute file names; "
+        "duplicate_last_bin {absent, True, False} x to_csv; Write's file names also with absolute file names; "
         "LaTeXToPDF flows with return codes 1, 127, -9, -15.  Histories: one plot, first "
         "run then EVERY step of the alphabet data{keep,change} x template{keep,change} x deletion of any subset of "
         "csv/tex/pdf/png (64), the same with all 36 option settings; a group of two plots with every step of its "
